@@ -3,7 +3,7 @@
 set -u
 id=$1; tier=${2:-quick}
 for x in a b c; do
-  p=/tmp/benign-$id/$x.diff; [ -f "$p" ] || continue
+  p=${BENIGN_DIR:-/verif/benign}/$id/$x.diff; [ -f "$p" ] || continue
   wt=/tmp/wt-benign-$id-$x-$$
   git -C /repo worktree add --detach "$wt" HEAD >/dev/null 2>&1 || exit 3
   if ! git -C "$wt" apply "$p" 2>/dev/null && ! git -C "$wt" apply --3way "$p" >/dev/null 2>&1; then echo "$id/$x PATCH DOES NOT APPLY"; git -C /repo worktree remove --force "$wt"; continue; fi
